@@ -46,8 +46,14 @@ def gen(rng, maxlen):
                     flt["s2"] = {"path": "header.protocolVersion", "op": rng.choice(("==", "!=")), "ref": 2}
             order = None
             if rng.random() < 0.4:
-                order = [{"attr": a, "desc": rng.random() < 0.5} for a in rng.sample(["timestamp", "stationId", "latitude"], rng.randrange(1, 3))]
-            ops.append({"op": "sub", "app": rng.choice(CONSUMERS), "types": list(rng.choice(((2,), (1,), (2, 16), (2, 1, 16)))), "filter": flt,
+                order = [{"attr": a, "desc": rng.random() < 0.5} for a in rng.sample(["timestamp", "stationId", "latitude", "stationType", "stationType"], rng.randrange(1, 3))]
+                if len(order) == 2 and order[0]["attr"] == order[1]["attr"]:
+                    order = order[:1]
+            types_ = list(rng.choice(((2,), (1,), (2, 16), (2, 1, 16))))
+            if order and set(types_) <= {2, 16} and rng.random() < 0.5:
+                # an attribute every selected object has, at a path that depends on the message type
+                order = [{"attr": "generationDeltaTime", "desc": rng.random() < 0.5}] + order[:1]
+            ops.append({"op": "sub", "app": rng.choice(CONSUMERS), "types": types_, "filter": flt,
                         "mult": rng.choice((None, 0, 1, 1, 2, 3, 5)), "interval_ms": rng.choice((None, 1, 1, 500, 1000, 2000, 5000)), "order": order,
                         "invalid": rng.choice((None,) * 5 + ("type", "priority", "interval", "multiplicity")),
                         # what the consumer's callback does when it is invoked (re-entrant use of IF.LDM.4 from a notification)
